@@ -28,6 +28,9 @@ TSFull == TSQuick \cup
             T(<<MS, 0, 0, MS>>, <<0, 0>>),                              \* identity
             T(<<(3 * MS) \div 2, 0, 0, -(MS \div 2)>>, <<0, 10 * PS>>) } \* 1.5 x -0.5 (det < 0)
 XformOnly == {"Transformations"}
+DecomposeOnly == {"DecomposeComponents", "SkipExportGlyphs"}
+TTKinds == {"DecomposeComponents", "FlattenComponents", "ReverseContourDirection"}
+SkipOnly == {"SkipExportGlyphs"}
 AllKinds == {"DecomposeComponents", "DecomposeTransformedComponents", "FlattenComponents",
              "SkipExportGlyphs", "ReverseContourDirection", "Transformations"}
 
